@@ -26,11 +26,11 @@ const (
 
 // Seg is one piece of a structured string / key.
 type Seg struct {
-	K    string // "lit", "ident", "dec", "be64", "any", "hex"
-	Lit  string // for lit
-	T    string // SMT term (Str for ident/any; BV64 for dec/be64)
-	W    int    // bit width for dec
-	Sgn  bool
+	K   string // "lit", "ident", "dec", "be64", "any", "hex"
+	Lit string // for lit
+	T   string // SMT term (Str for ident/any; BV64 for dec/be64)
+	W   int    // bit width for dec
+	Sgn bool
 }
 
 type Pointer struct {
@@ -54,34 +54,34 @@ type StoreRef struct {
 }
 
 type IterRef struct {
-	Store  *StoreRef
-	Prefix []Seg
-	Key    string // current key term (Str)
+	Store   *StoreRef
+	Prefix  []Seg
+	Key     string // current key term (Str)
 	KeySegs []Seg
-	Val    string
-	Valid  string // Bool term
-	ID     int
+	Val     string
+	Valid   string // Bool term
+	ID      int
 	// range iterators
-	Over   *Val
+	Over    *Val
 	Visited string
 }
 
 type Val struct {
-	K     vkind
-	Sort  string
-	T     string
-	Typ   types.Type
-	Ptr   *Pointer
-	Elems []Val
-	Segs  []Seg
-	Store *StoreRef
-	World int
-	Fn    *ssa.Function
-	Bind  []Val
-	Inner *Val // kIface: dynamic value
-	Iter  *IterRef
-	Nil   string // for kPtr on symbolic params: Bool term "is nil" ("" = known non-nil)
-	Bound *Val // bound method receiver
+	K      vkind
+	Sort   string
+	T      string
+	Typ    types.Type
+	Ptr    *Pointer
+	Elems  []Val
+	Segs   []Seg
+	Store  *StoreRef
+	World  int
+	Fn     *ssa.Function
+	Bind   []Val
+	Inner  *Val // kIface: dynamic value
+	Iter   *IterRef
+	Nil    string // for kPtr on symbolic params: Bool term "is nil" ("" = known non-nil)
+	Bound  *Val   // bound method receiver
 	Frozen string // kStore: term fixed at the state in which it was evaluated (old(...))
 }
 
